@@ -255,8 +255,49 @@ func runSimCaseWith(t *rapid.T, o simOpts, setup func(*sim.World)) *sim.World {
 	}
 	w.Start()
 	sw := drawSwarm(t, len(cfg.Byz) > 0 || cfg.Outsiders > 0)
+	// scenario template: a Byzantine leader of view 0 proposes an honest-looking block, the correct members' PREPAREs (and
+	// COMMITs) never reach each other but the adversary sees them, the correct members time out until a Byzantine member leads
+	// again, and that leader sends a NEW_VIEW from the preset catalogue, backed by Byzantine PREPAREs/COMMITs.
+	// Everything is applied as primitive actions, so the trace replays and shrinks like any other.
+	usedTemplate := false
+	if l := w.LeaderIdx(1, 0); w.IsByz(l) && rapid.IntRange(0, 9).Draw(t, "template?") < 4 {
+		usedTemplate = true
+		full := uint16(1<<uint(cfg.N) - 1)
+		w.Apply(sim.Action{K: "byz", Byz: &sim.ByzSpec{Strat: "pp", As: l, To: full, H: 1, V: 0, P: []int{rapid.IntRange(0, 1).Draw(t, "tpl-block"), 0}}})
+		held := rapid.SampledFrom([]int{1<<sim.UP | 1<<sim.UC, 1 << sim.UC, 1 << sim.UP}).Draw(t, "tpl-held")
+		heldTo := full
+		if rapid.Bool().Draw(t, "tpl-held-to-some") { // e.g. the COMMITs reach one member only, which commits alone
+			heldTo = uint16(rapid.IntRange(1, int(full)).Draw(t, "tpl-held-to"))
+		}
+		w.Apply(sim.Action{K: "hold", Hold: &sim.HoldRule{Types: uint8(held), To: heldTo, From: 0xffff}})
+		if rapid.Bool().Draw(t, "tpl-byz-prepares") {
+			w.Apply(sim.Action{K: "byz", Byz: &sim.ByzSpec{Strat: "support", As: l, To: uint16(rapid.IntRange(1, int(full)).Draw(t, "tpl-support-to")), H: 1, V: 0, P: []int{0, 0}}})
+		}
+		w.Apply(sim.Action{K: "run", N: 60})
+		w.Apply(sim.Action{K: "dropheld"})
+		w.Apply(sim.Action{K: "release"})
+		view := uint64(0)
+		blockHonest := rapid.Bool().Draw(t, "tpl-block-honest-views") // nothing gets through while correct members lead
+		for k := 0; k < cfg.N+1 && w.Viol == nil; k++ {
+			w.Apply(sim.Action{K: "timeouts", Mask: laggardMask(w)})
+			view++
+			if nl := w.LeaderIdx(1, view); w.IsByz(nl) {
+				preset := rapid.SampledFrom(nvPresets).Draw(t, "tpl-preset")
+				w.Apply(sim.Action{K: "dropheld"})
+				w.Apply(sim.Action{K: "release"})
+				w.Apply(sim.Action{K: "byz", N: 60, Byz: &sim.ByzSpec{Strat: "nv", As: nl, To: full, H: 1, V: view, P: append([]int{}, preset...)}})
+				w.Apply(sim.Action{K: "byz", N: 100, Byz: &sim.ByzSpec{Strat: "support", As: nl, To: full, H: 1, V: view, P: []int{0, 0}}})
+				break
+			}
+			if blockHonest {
+				w.Apply(sim.Action{K: "hold", Hold: &sim.HoldRule{Types: 31, To: full, From: 0xffff}})
+			}
+			w.Apply(sim.Action{K: "run", N: 60}) // a correct leader's view: let it try, unless everything is held
+		}
+		w.Apply(sim.Action{K: "release"})
+	}
 	// prelude: the classic attack shape "some message class is delayed to some nodes, the rest runs, some nodes time out"
-	if rapid.IntRange(0, 9).Draw(t, "prelude?") < 6 {
+	if !usedTemplate && rapid.IntRange(0, 9).Draw(t, "prelude?") < 6 {
 		full := 1<<uint(cfg.N) - 1
 		types := rapid.SampledFrom([]int{1 << sim.UC, 1 << sim.UC, 1<<sim.UP | 1<<sim.UC, 1 << sim.UP, 1 << sim.UPP}).Draw(t, "pre-types")
 		w.Apply(sim.Action{K: "hold", Hold: &sim.HoldRule{Types: uint8(types), To: uint16(rapid.IntRange(1, full).Draw(t, "pre-to")), From: 0xffff}})
